@@ -79,4 +79,4 @@ Proof. exact harkins_jura_increasing. Qed.
 Print Assumptions harkins_jura_thickness_increasing.
 
 Example zero_thickness_hypothesis_satisfiable : zero_thick (desc RNum [1; 2; 4] [0; 0; 0] [1; 2; 3]).
-Proof. repeat constructor; simpl; lra. Qed.
+Proof. exact zero_thick_example. Qed.
